@@ -9,7 +9,9 @@ export VERIF_DIR="$HERE"
 TIER="${1:-quick}"
 COV="$HERE/.scratch/cov"; mkdir -p "$COV"; rm -f "$COV"/*.profraw
 T="$(rustc +nightly --print sysroot)/lib/rustlib/x86_64-unknown-linux-gnu/bin"
-(cd "$HERE/harness" && RUSTFLAGS="-Cinstrument-coverage" CARGO_TARGET_DIR="$COV/target" cargo +nightly build --offline -q 2>/dev/null) || { echo "coverage build failed"; exit 2; }
+# (proc macros and build scripts of instrumented crates write profiles where they run: keep them out of /repo)
+(cd "$HERE/harness" && LLVM_PROFILE_FILE="$COV/build-%p-%m.profraw" RUSTFLAGS="-Cinstrument-coverage" CARGO_TARGET_DIR="$COV/target" cargo +nightly build --offline -q 2>/dev/null) || { echo "coverage build failed"; exit 2; }
+rm -f "$COV"/build-*.profraw
 for p in C01 C02 C03 C04 C05 C06 C07 C08 C09 C10 C11 C12 C13 C14 C15 C16 C17 C18; do
   LLVM_PROFILE_FILE="$COV/$p-%p.profraw" VERIF_EVIDENCE_DIR="$COV/ev" "$COV/target/debug/vharness" run $p --tier "$TIER" --seed "${VERIF_SEED:-0}" 2>&1 | tail -1
 done
